@@ -58,7 +58,7 @@ fn iriref_base<const N: usize>() {
     cover!(e < b.len() && e > 2 && b[e] >= 0xC2, "multi-byte file name cut off");
 }
 
-// @h prop=C16 tier=thorough kind=check bound="IriRef text <= 9 bytes (UTF-8)" encodes="RiRefImpl::base for IriRef"
+// @h prop=C16 tier=quick kind=check bound="IriRef text <= 9 bytes (UTF-8)" encodes="RiRefImpl::base for IriRef"
 #[cfg_attr(kani, kani::proof)]
 #[cfg_attr(kani, kani::unwind(11))]
 pub fn c16_iriref_base_n9() {
@@ -116,7 +116,7 @@ fn path_suffix<const N: usize, const K: usize>() {
     cover!(!is_prefix && aa == pa, "same kind but not a prefix");
 }
 
-// @h prop=C16 tier=quick kind=check timeout=3000 mem=24 bound="uri::Path value <= 4 bytes x prefix 'a'" encodes="PathImpl::suffix;NormalizedSegmentsImpl;utils::pct_eq;PathMutImpl::push (Vec growth from empty: one allocation of the harness capacity)"
+// @h prop=C16 tier=thorough kind=check timeout=3600 mem=30 bound="uri::Path value <= 4 bytes x prefix 'a'" encodes="PathImpl::suffix;NormalizedSegmentsImpl;utils::pct_eq;PathMutImpl::push (Vec growth from empty: one allocation of the harness capacity)"
 #[cfg_attr(kani, kani::proof)]
 #[cfg_attr(kani, kani::unwind(12))]
 #[cfg_attr(kani, kani::stub(std::vec::Vec::resize, crate::stubs::vec_resize))]
@@ -126,7 +126,7 @@ pub fn c16_path_suffix_rep2_n4() {
     path_suffix::<4, 2>()
 }
 
-// @h prop=C16 tier=quick kind=check timeout=3000 mem=24 bound="uri::Path value <= 4 bytes x prefix '/'" encodes="same as c16_path_suffix_rep2_n4"
+// @h prop=C16 tier=thorough kind=check timeout=3600 mem=30 bound="uri::Path value <= 4 bytes x prefix '/'" encodes="same as c16_path_suffix_rep2_n4"
 #[cfg_attr(kani, kani::proof)]
 #[cfg_attr(kani, kani::unwind(12))]
 #[cfg_attr(kani, kani::stub(std::vec::Vec::resize, crate::stubs::vec_resize))]
